@@ -1,7 +1,7 @@
 (* Properties_C18.v -- GroupBy partitions an array of objects by key value.
    Statements only; proofs in ValueProofsGroup.v / ValueProofsObs.v. *)
 From Coq Require Import NArith ZArith List Bool.
-From Qv Require Import ValueModel ValueProofs ValueProofsObs ValueProofsGroup.
+From Qv Require Import ValueModel ValueProofs ValueProofsObs ValueProofsRead ValueProofsGroup ValueProofsWf.
 Import ListNotations.
 
 (* The model of the (patched) C++ GroupBy and the same loop read on abstract
@@ -35,3 +35,54 @@ Theorem c18_step_refines : forall st o, is_reader o = false ->
     oc_abs (step st o) = d_step (abss st) o.
 Proof. exact step_abs. Qed.
 Print Assumptions c18_step_refines.
+
+(* With unique member keys (the HArray invariant, C13) the record the loop
+   rebuilds is the record with the grouping key erased, removed members
+   dropped, every other member an unchanged (fresh) copy, in order. *)
+Theorem c18_other_members_unchanged : forall k r,
+    NoDup (map fst (d_members r)) -> rec_sub k r = erase_key k (d_members r).
+Proof. exact rec_sub_is_erase_key. Qed.
+Print Assumptions c18_other_members_unchanged.
+
+(* The declarative form: whenever partition_by_key is defined (non-empty array
+   of records that all carry the key with a textual value), GroupBy succeeds
+   and returns exactly it. *)
+Theorem c18_groups_equal_partition_by_key : forall k recs,
+    Forall (fun r => NoDup (map fst (d_members r))) recs ->
+    forall g, partition_by_key recs k = Some g ->
+    d_group_by (DArr recs) k = (true, Some g).
+Proof. exact group_by_is_partition_by_key. Qed.
+Print Assumptions c18_groups_equal_partition_by_key.
+
+(* Every input record lands in exactly one group: the group sizes add up to
+   the number of records (and by c18_loop_is_partition each group is a filter). *)
+Theorem c18_each_in_exactly_one : forall t,
+    list_sum (map (fun g => length (d_items (snd g))) (part t)) = length t.
+Proof. exact each_record_in_exactly_one_group. Qed.
+Print Assumptions c18_each_in_exactly_one.
+
+(* The rendered <loop group=...> iterates the same partition: the render model
+   on a value is the render of the specification on its abstraction. *)
+Theorem c18_loop_group_same : forall v k, render_groups v k = d_render_groups (abs v) k.
+Proof. exact render_groups_abs. Qed.
+Print Assumptions c18_loop_group_same.
+
+(* Member keys stay unique in every object of every document a history can
+   reach (so the hypothesis of c18_groups_equal_partition_by_key always holds). *)
+Theorem c18_unique_keys_invariant : forall ops st, wfs st -> oc_wfs (d_final st ops).
+Proof. exact reachable_wfs. Qed.
+Print Assumptions c18_unique_keys_invariant.
+
+(* Unconditional form on the model of the C++: after ANY history, GroupBy on a
+   value whose abstraction is an array of records returns partition_by_key of
+   those records (distinct names in first-appearance order; stable groups; key
+   erased; other members unchanged) wherever partition_by_key is defined, i.e.
+   for every non-empty array of records that carry the key with a textual value. *)
+Theorem c18_group_by_is_partition_by_key : forall ops st out t v recs k g,
+    final init_state ops = Done st out ->
+    st_get st t = Some v ->
+    abs v = DArr recs ->
+    partition_by_key recs k = Some g ->
+    gb_abs (group_by v k) = (true, Some g).
+Proof. exact model_group_by_is_partition. Qed.
+Print Assumptions c18_group_by_is_partition_by_key.
